@@ -464,7 +464,9 @@ func (w *world) reconcile(c *vt.C) *vt.Finding {
 	}
 	for _, h := range park {
 		p := w.prods[h.rid]
-		if p.state == "queued" || p.state == "unknown" || p.state == "maybe" || (w.relaxed && p.state == "blocked") {
+		// a blocked producer whose request is being handed over has been admitted: under load the consumer can
+		// park the hand-off before the producer's own return has been observed
+		if p.state == "queued" || p.state == "unknown" || p.state == "maybe" || p.state == "blocked" {
 			if p.state != "queued" {
 				// admission only now becomes visible
 				w.size += p.size
